@@ -14,4 +14,5 @@ rc=$?
 if [ $rc -eq 0 ]; then VERIF_EVIDENCE_DIR=$S/evidence DENDROPY_REPO=$S /verif/check $PROP | tail -4; echo "exit=$?"; fi
 rm -rf $S
 # restore generated files for the real repo
-(cd /verif/harness && ${PY:-/venv/bin/python} extract.py >/dev/null)
+(cd /verif/harness && ${PY:-/venv/bin/python} -c "import leanio
+with leanio.lock(): leanio.regenerate()" >/dev/null)
